@@ -373,7 +373,9 @@ def inplace(run, p):
             ni += 1
             own = copied(ix)
             stores = [y for y in nodes if isinstance(y, ast.Assign) and any(isinstance(t, ast.Attribute) and t.attr in ('name', 'names') and
-                                                                            isinstance(t.value, ast.Attribute) and t.value.attr == 'index' for t in y.targets)]
+                                                                            ((isinstance(t.value, ast.Attribute) and t.value.attr == 'index') or
+                                                                             (isinstance(ix, ast.Name) and isinstance(t.value, ast.Name) and t.value.id == ix.id))
+                                                                            for t in y.targets)]
             ok = own or not stores
             run.ob('C06-INPLACE', '%s::%s::index-of-the-detection-frame' % (f.rel, f.short), ok,
                    'the detection frame is built on %s: %s' % (norm(ix)[:40], 'a copy of the input frame\'s index' if own else
